@@ -299,6 +299,57 @@ theorem parseChunks_enc : ∀ (fuel : Nat) (b : Bytes), b.length < fuel → ∀ 
           rw [htake, hdrop]
           simp only [ih, Option.map_some, List.take_append_drop]
 
+/-- the chunked body the encoder writes has no trailer fields -/
+theorem chunkTrailers_enc : ∀ (fuel : Nat) (b : Bytes), b.length < fuel → ∀ (rest : Bytes) (pf : Nat), b.length < pf →
+    chunkTrailers pf (chunksOf fuel b ++ rest) = []
+  | 0, _, h, _, _, _ => by omega
+  | fuel + 1, b, hf, rest, pf, hpf => by
+    cases pf with
+    | zero => omega
+    | succ pf' =>
+      by_cases hb : b = []
+      · subst hb
+        have h1 := takeLine_exact (bytesOfString "0") (crlf ++ rest) (by decide)
+        have h2 := parseHeaders_enc [] (by simp) rest ((crlf ++ rest).length + 1) (by simp)
+        simp only [encHeaders, List.map_nil, List.flatten_nil, List.nil_append] at h2
+        simp only [chunksOf, List.isEmpty_nil, if_true, List.append_assoc, crlf] at h1 ⊢
+        simp only [chunkTrailers, h1]
+        have : hexNat? ((bytesOfString "0").takeWhile (· != 59)) = some 0 := by rfl
+        simp only [this, crlf] at h2 ⊢
+        simp only [List.cons_append, List.nil_append] at h2 ⊢
+        rw [h2]; rfl
+      · have hne : b.isEmpty = false := by cases b <;> simp_all
+        have hlen : 0 < b.length := by cases b <;> simp_all
+        let n := min 7 b.length
+        have hn7 : n ≤ 7 := Nat.min_le_left _ _
+        have hnb : n ≤ b.length := Nat.min_le_right _ _
+        have hn0 : 0 < n := by simp only [n]; omega
+        have hline := takeLine_exact (hex n) (b.take n ++ crlf ++ chunksOf fuel (b.drop n) ++ rest) (by
+          rw [hex_small n hn7]; intro x hx; simp at hx; subst hx
+          have : n = 1 ∨ n = 2 ∨ n = 3 ∨ n = 4 ∨ n = 5 ∨ n = 6 ∨ n = 7 := by omega
+          rcases this with h | h | h | h | h | h | h <;> rw [h] <;> decide)
+        have ih := chunkTrailers_enc fuel (b.drop n) (by simp only [List.length_drop]; omega) rest pf'
+          (by simp only [List.length_drop]; omega)
+        have hform : chunksOf (fuel + 1) b ++ rest =
+            hex n ++ [13, 10] ++ (b.take n ++ crlf ++ chunksOf fuel (b.drop n) ++ rest) := by
+          simp [chunksOf, hne, n, crlf, List.append_assoc]
+        rw [hform]
+        simp only [chunkTrailers, hline]
+        rw [hex_small n hn7, hexNat_small n hn7]
+        cases hnn : n with
+        | zero => omega
+        | succ m =>
+          simp only
+          rw [← hnn]
+          have hlen2 : ¬ ((b.take n ++ crlf ++ chunksOf fuel (b.drop n) ++ rest).length < n + 2) := by
+            simp only [List.length_append, List.length_take, crlf, List.length_cons, List.length_nil]; omega
+          simp only [hlen2, if_false]
+          have hdrop : (b.take n ++ crlf ++ chunksOf fuel (b.drop n) ++ rest).drop n =
+              13 :: 10 :: (chunksOf fuel (b.drop n) ++ rest) := by
+            simp [List.append_assoc, crlf, List.drop_append, List.length_take, Nat.min_eq_left hnb]
+          rw [hdrop]
+          exact ih
+
 /-! start lines -/
 
 theorem splitOnByte_ne_nil (sep : UInt8) (b : Bytes) : ∃ cur more, splitOnByte sep b = cur :: more := by
@@ -452,7 +503,8 @@ theorem c03_request_enc (m : Msg) (hw : WfReq m) (rest : Bytes) :
       · subst hh; exact cl_wf _
       · subst hh; exact te_wf
   have hform : ∃ bodyBytes, encMsgCore m ++ rest = line ++ [13, 10] ++ (encHeaders allHs ++ crlf ++ (bodyBytes ++ rest)) ∧
-      parseBody (framingOf true 0 allHs) (bodyBytes ++ rest) = some (m.body, rest) := by
+      parseBody (framingOf true 0 allHs) (bodyBytes ++ rest) = some (m.body, rest) ∧
+      trailersOf (framingOf true 0 allHs) (bodyBytes ++ rest) = [] := by
     have hstart : (if m.isRequest then m.method ++ [32] ++ m.target ++ bytesOfString " HTTP/1." ++ dec m.minor
         else bytesOfString "HTTP/1." ++ dec m.minor ++ [32] ++ dec m.status ++ [32] ++ m.reason) = line := by
       simp [hreq, line, ver, bytesOfString, List.append_assoc]
@@ -470,7 +522,7 @@ theorem c03_request_enc (m : Msg) (hw : WfReq m) (rest : Bytes) :
           simp only [allHs, parsedOf, hf]
           rw [headerValue_append _ _ _ (fun x hx => (hnf x hx).1)]; rfl
         simp only [framingOf, Bool.not_true, Bool.false_and, Bool.false_eq_true, if_false, hte, hcl, Option.bind_some, decNat_dec]
-        exact body_by_length_exact m.body rest
+        exact ⟨body_by_length_exact m.body rest, rfl⟩
     · refine ⟨chunksOf (m.body.length + 1) m.body, ?_, ?_⟩
       · have hsplitStr : bytesOfString "Transfer-Encoding: chunked" =
             bytesOfString "Transfer-Encoding" ++ bytesOfString ": " ++ bytesOfString "chunked" := by decide
@@ -482,20 +534,22 @@ theorem c03_request_enc (m : Msg) (hw : WfReq m) (rest : Bytes) :
         have hlow : (lower (bytesOfString "chunked") == bytesOfString "chunked") = true := by decide
         simp only [framingOf, Bool.not_true, Bool.false_and, Bool.false_eq_true, if_false, hte, hlow, if_true, parseBody]
         have hcl := chunks_len (m.body.length + 1) m.body (by omega)
-        exact parseChunks_enc _ m.body (by omega) rest _ (by simp only [List.length_append]; omega)
+        refine ⟨parseChunks_enc _ m.body (by omega) rest _ (by simp only [List.length_append]; omega), ?_⟩
+        simp only [trailersOf]
+        exact chunkTrailers_enc _ m.body (by omega) rest _ (by simp only [List.length_append]; omega)
     · refine ⟨[], ?_, ?_⟩
       · simp only [encMsgCore, hstart, hf, allHs, parsedOf, List.append_nil]
         simp [encHeaders, crlf, List.append_assoc]
       · have hh : allHs = m.headers := by simp [allHs, parsedOf, hf]
         simp only [hh, framingOf, Bool.not_true, Bool.false_and, Bool.false_eq_true, if_false, hte0, hcl0, Option.bind_none,
-          if_true, parseBody, List.nil_append, hbody]
-  obtain ⟨bodyBytes, hf1, hf2⟩ := hform
+          if_true, parseBody, List.nil_append, hbody, trailersOf, and_self]
+  obtain ⟨bodyBytes, hf1, hf2, hf3⟩ := hform
   have htl := takeLine_exact line (encHeaders allHs ++ crlf ++ (bodyBytes ++ rest)) hline13
   have hph := parseHeaders_enc allHs hallwf (bodyBytes ++ rest) ((encHeaders allHs ++ crlf ++ (bodyBytes ++ rest)).length + 1)
     (by have := encHeaders_len allHs
         simp only [List.length_append]; omega)
   rw [hf1]
-  simp only [parseRequest, htl, hsplit, hver, hph, hf2, Option.map_some]
+  simp only [parseRequest, htl, hsplit, hver, hph, hf2, hf3, List.append_nil, Option.map_some]
   simp [parsedOf, hreq, hst, allHs]
 
 def noBodyStatus (st : Nat) : Bool := st / 100 == 1 || st == 204 || st == 304
@@ -553,13 +607,14 @@ theorem c03_response_enc (m : Msg) (rest : Bytes) (hw : WfResp m rest) :
   have hte0 := headerValue_none m.headers "transfer-encoding" (fun x hx => (hnf x hx).2)
   have hcl0 := headerValue_none m.headers "content-length" (fun x hx => (hnf x hx).1)
   have hform : ∃ bodyBytes, encMsgCore m ++ rest = line ++ [13, 10] ++ (encHeaders allHs ++ crlf ++ (bodyBytes ++ rest)) ∧
-      parseBody (framingOf false m.status allHs) (bodyBytes ++ rest) = some (m.body, if m.framing = .close then [] else rest) := by
+      parseBody (framingOf false m.status allHs) (bodyBytes ++ rest) = some (m.body, if m.framing = .close then [] else rest) ∧
+      trailersOf (framingOf false m.status allHs) (bodyBytes ++ rest) = [] := by
     rcases hfr with ⟨hnb, hf, hbody⟩ | ⟨hnb, hf | hf | ⟨hf, hrest⟩⟩
     · refine ⟨[], ?_, ?_⟩
       · simp only [encMsgCore, hstart, hf, allHs, parsedOf, List.append_nil]
         simp [encHeaders, crlf, List.append_assoc]
       · have hnb' : (m.status / 100 == 1 || m.status == 204 || m.status == 304) = true := hnb
-        simp [framingOf, hnb', parseBody, hbody, hf]
+        simp [framingOf, hnb', parseBody, hbody, hf, trailersOf]
     · refine ⟨m.body, ?_, ?_⟩
       · have hsplitStr : bytesOfString "Content-Length: " = bytesOfString "Content-Length" ++ bytesOfString ": " := by decide
         simp only [encMsgCore, hstart, hf, allHs, parsedOf, encHeaders_snoc, hsplitStr]
@@ -572,7 +627,7 @@ theorem c03_response_enc (m : Msg) (rest : Bytes) (hw : WfResp m rest) :
           rw [headerValue_append _ _ _ (fun x hx => (hnf x hx).1)]; rfl
         have hnb' : (m.status / 100 == 1 || m.status == 204 || m.status == 304) = false := hnb
         simp only [framingOf, Bool.not_false, Bool.true_and, hnb', Bool.false_eq_true, if_false, hte, hcl, Option.bind_some, decNat_dec, hf]
-        simpa using body_by_length_exact m.body rest
+        refine ⟨by simpa using body_by_length_exact m.body rest, rfl⟩
     · refine ⟨chunksOf (m.body.length + 1) m.body, ?_, ?_⟩
       · have hsplitStr : bytesOfString "Transfer-Encoding: chunked" =
             bytesOfString "Transfer-Encoding" ++ bytesOfString ": " ++ bytesOfString "chunked" := by decide
@@ -587,20 +642,22 @@ theorem c03_response_enc (m : Msg) (rest : Bytes) (hw : WfResp m rest) :
         simp only [framingOf, Bool.not_false, Bool.true_and, hnb', Bool.false_eq_true, if_false, hte, hlow, if_true, parseBody, hf]
         have := parseChunks_enc (m.body.length + 1) m.body (by omega) rest
           ((chunksOf (m.body.length + 1) m.body ++ rest).length + 1) (by simp only [List.length_append]; omega)
-        simpa using this
+        refine ⟨by simpa using this, ?_⟩
+        simp only [trailersOf]
+        exact chunkTrailers_enc _ m.body (by omega) rest _ (by simp only [List.length_append]; omega)
     · refine ⟨m.body, ?_, ?_⟩
       · simp only [encMsgCore, hstart, hf, allHs, parsedOf, List.append_nil]
         simp [encHeaders, crlf, List.append_assoc]
       · have hh : allHs = m.headers := by simp [allHs, parsedOf, hf]
         have hnb' : (m.status / 100 == 1 || m.status == 204 || m.status == 304) = false := hnb
-        simp [hh, framingOf, hnb', hte0, hcl0, parseBody, hf, hrest]
-  obtain ⟨bodyBytes, hf1, hf2⟩ := hform
+        simp [hh, framingOf, hnb', hte0, hcl0, parseBody, hf, hrest, trailersOf]
+  obtain ⟨bodyBytes, hf1, hf2, hf3⟩ := hform
   have htl := takeLine_exact line (encHeaders allHs ++ crlf ++ (bodyBytes ++ rest)) hline13
   have hph := parseHeaders_enc allHs hallwf (bodyBytes ++ rest) ((encHeaders allHs ++ crlf ++ (bodyBytes ++ rest)).length + 1)
     (by have := encHeaders_len allHs
         simp only [List.length_append]; omega)
   rw [hf1]
-  simp only [parseResponse, htl, hsplit, hver, decNat_dec, hph, hf2, Option.map_some]
+  simp only [parseResponse, htl, hsplit, hver, decNat_dec, hph, hf2, hf3, List.append_nil, Option.map_some]
   simp [parsedOf, hresp, hmeth, htarg, allHs]
 
 /-- Non-vacuity: a chunked POST with a binary body and two header fields is well-formed. -/
